@@ -69,6 +69,11 @@ func (p RemotePackage) subPathString(subPath string) string {
 	// query string to appear after the subpath portion, so we need to
 	// now tweak the package URL to be a sub-path URL instead.
 	subURL := p.url // shallow copy
+	if subURL.RawPath != "" {
+		// Keep the package's own path encoding (for example "%2F") intact;
+		// url.URL ignores RawPath once it no longer matches Path.
+		subURL.RawPath += "//" + (&url.URL{Path: subPath}).EscapedPath()
+	}
 	subURL.Path += "//" + subPath
 	if subURL.Scheme == p.sourceType {
 		return subURL.String()
